@@ -20,7 +20,8 @@ def histories(nvar, entries, depth, hows=("inproc", "restart"), same_entry=True)
     out = []
     ents = list(entries)
     for e0 in (ents if same_entry else [None]):
-        steps1 = [(v, "restart", e) for v in range(nvar) for e in ([e0] if same_entry else ents)]
+        first_hows = ("restart", "optflip_fresh") if "optflip" in hows else ("restart",)
+        steps1 = [(v, h, e) for v in range(nvar) for h in first_hows for e in ([e0] if same_entry else ents)]
         stepsn = [(v, h, e) for v in range(nvar) for h in hows for e in ([e0] if same_entry else ents)]
         for d in range(1, depth + 1):
             for first in steps1:
@@ -55,8 +56,8 @@ def run_history(world, spec, hist, store_kind, oracles, sigtab=None, opts=None, 
     try:
         for si, (vi, how, entry) in enumerate(hist):
             variant = vs[vi]
-            optflip = how == "optflip"
-            did = prog.goto(variant, "inproc" if optflip else how)
+            optflip = how in ("optflip", "optflip_fresh")
+            did = prog.goto(variant, "restart" if how == "optflip_fresh" else ("inproc" if optflip else how))
             if optflip:
                 # the user switches the tracking of list / dict variables off for this one evaluation, then back to the default
                 import dds
